@@ -235,6 +235,26 @@ func init() {
 		return res, nil
 	}
 
+	// c05.instanceids {uuid, names:[..]} -> {name: local instance id}
+	APIs["c05.instanceids"] = func(args json.RawMessage) (interface{}, error) {
+		var a struct {
+			UUID  string   `json:"uuid"`
+			Names []string `json:"names"`
+		}
+		if err := json.Unmarshal(args, &a); err != nil {
+			return nil, err
+		}
+		out := map[string]uint32{}
+		for _, n := range a.Names {
+			data, err := datastore.GetDataByUUIDName(dvid.UUID(a.UUID), dvid.InstanceName(n))
+			if err != nil {
+				return nil, err
+			}
+			out[n] = uint32(data.InstanceID())
+		}
+		return out, nil
+	}
+
 	APIs["c05.deleterange"] = func(args json.RawMessage) (interface{}, error) {
 		var a struct {
 			c05Target
